@@ -1,6 +1,9 @@
 import PhyVerif.Model.C01
 import PhyVerif.Spec.C01
 import PhyVerif.Lemmas.C01
+import PhyVerif.Model.C01b
+import PhyVerif.Spec.C01b
+import PhyVerif.Lemmas.C01b
 /-!
 # C01 — reader indexing equals NumPy indexing of the concatenated recording
 Only property theorems + non-vacuity examples; proofs in `Lemmas/C01.lean`.
@@ -42,6 +45,78 @@ theorem memmapRows_exact (off isz nch rows : Nat) (h1 : 0 < isz) (h2 : 0 < nch) 
     memmapRows (off + rows * nch * isz) off isz nch = rows :=
   Lemmas.memmapRows_exact off isz nch rows h1 h2
 
+/-! ### Reader objects: attributes and backends (`Model/C01b.lean`) -/
+
+/-- "The reader's shape, sample count, channel count, dtype and duration are those of that concatenated
+array", for every backend and the attributes computed the way the code computes them: the constructor of a
+well-formed recording (`SrcOK`: flat files = header ++ rows, one npy / compressed file, the decoder's chunk
+table ending at the row count, a rate the constructor's `assert chunk_size > 0` lets through) succeeds, and
+`n_samples` — the LAST CHUNK BOUND (`_get_chunk_bounds` over the per-file row counts obtained from the file
+sizes, with chunk length `int(round(600·rate))`; the stored table for compressed files) — is the number of rows
+of the concatenation; `shape = (n_samples, n_channels)`; `duration = n_samples / rate`; the stored
+`part_bounds` are the cumulative part lengths and the stored parts concatenate to the recording.
+Outside `SrcOK` the real constructors raise (no file, `n_channels = 0`, a file shorter than its header, rate
+≤ 1/1200 Hz: AssertionError; ≠ 1 npy path: ValueError) or — several compressed files — keep only the first
+(open known finding). -/
+theorem reader_attrs_eq_concat {α : Type} (src : Source α) (h : SrcOK src) :
+    ∃ r, build src = some r ∧
+      r.backend = src.backend ∧
+      r.nSamples = some src.concat.length ∧
+      r.shape = some (src.concat.length, src.width) ∧
+      r.nChannels = src.width ∧ r.dtype = src.dtype ∧
+      r.duration = some ((src.concat.length : Rat) / src.rate) ∧
+      r.partBounds = bounds r.store ∧ r.store.flatten = src.concat :=
+  Lemmas.reader_attrs src h
+
+/-- Indexing the constructed reader of any backend (its `__getitem__` reads the STORED `part_bounds`) with an
+in-domain index expression the backend offers — everything except an index list/array on a compressed file —
+and a channel selector returns NumPy's rows of the concatenation (at least one), each restricted to the
+selected columns. -/
+theorem reader_getitem_eq_concat {β : Type} (src : Source (List β)) (h : SrcOK src) (r : Reader (List β))
+    (hr : build src = some r) (it : Item) (hd : InDom src.concat.length it) (c : ColSel)
+    (hoff : src.backend = .cbin → it.isList = false) :
+    ∃ rows, npRows src.concat it = some rows ∧ rows ≠ [] ∧
+      getItemB r it c = .ok (rows.map (selCols c)) :=
+  Lemmas.getItemB_eq src h r hr it hd c hoff
+
+/-- What an index-list channel selector selects (the column semantics `selCols` gives the theorems above):
+for entries within `[-w, w)` of a row of width `w`, exactly one cell per entry, in the order written, negative
+entries counting from the end — NumPy's `row[l]`.  (Outside the range NumPy and the real reader raise
+IndexError; the totalised `selCols` would drop the entry, which is why the hypothesis is there.) -/
+theorem selCols_idx_eq {β : Type} (l : List Int) (row : List β)
+    (hl : ∀ i ∈ l, -(row.length : Int) ≤ i ∧ i < row.length) (d : β) :
+    selCols (.idx l) row =
+      l.map fun i => (row[(if i < 0 then i + (row.length : Int) else i).toNat]?).getD d :=
+  Lemmas.selCols_idx l row hl d
+
+/-- Derived readers: `reader[:, c1][:, c2]…[item, c]` — successive deferred channel selections followed by
+an index with (or without) a further selector — returns NumPy's rows of the concatenation with the selections
+applied IN THE ORDER WRITTEN (`A[item][:, c1][:, c2]…[:, c]`, which is `A[:, c1][:, c2]…[item][:, c]`: row
+and column selection commute, two column selections do not). -/
+theorem reader_getitem_ops_eq_concat {β : Type} (src : Source (List β)) (h : SrcOK src)
+    (r : Reader (List β)) (hr : build src = some r) (it : Item) (hd : InDom src.concat.length it)
+    (ops : List ColSel) (hoff : src.backend = .cbin → it.isList = false) :
+    ∃ rows, npRows src.concat it = some rows ∧ rows ≠ [] ∧
+      getItemOps r it ops = .ok (rows.map (applyCols ops)) :=
+  Lemmas.getItemOps_eq src h r hr it hd ops hoff
+
+/-- "except on compressed files whose decoder does not offer it": an in-domain index list/array on a
+compressed file is REFUSED (the decoder's `NotImplementedError`, raised by the first `_get_part` call after
+`_get_subitems` has accepted the list) … -/
+theorem reader_cbin_list_refused {β : Type} (src : Source (List β)) (h : SrcOK src) (r : Reader (List β))
+    (hr : build src = some r) (hbe : src.backend = .cbin) (l : List Int)
+    (hd : InDom src.concat.length (.list l)) (c : ColSel) :
+    getItemB r (.list l) c = .refused :=
+  Lemmas.getItemB_refused src h r hr hbe l hd c
+
+/-- … and never answered wrongly: on every backend, whenever an in-domain index expression is answered at
+all, the answer is NumPy's on the concatenation. -/
+theorem reader_never_wrong {β : Type} (src : Source (List β)) (h : SrcOK src) (r : Reader (List β))
+    (hr : build src = some r) (it : Item) (hd : InDom src.concat.length it) (c : ColSel)
+    (v : List (List β)) (hv : getItemB r it c = .ok v) :
+    ∃ rows, npRows src.concat it = some rows ∧ v = rows.map (selCols c) :=
+  Lemmas.getItemB_sound src h r hr it hd c v hv
+
 /-! Non-vacuity -/
 example : getRows [[10, 11], [12], [13, 14, 15]] (.slice (some (-4)) none) = some [12, 13, 14, 15] := by decide
 example : InDom 6 (.slice (some (-4)) none) := by
@@ -49,5 +124,34 @@ example : InDom 6 (.slice (some (-4)) none) := by
 example : getRows [[10, 11], [12], [13, 14, 15]] (.list [1, 2, 5]) = some [11, 12, 15] := by decide
 example : getRows [[10, 11], [12], [13, 14, 15]] (.int (-1)) = some [15] := by decide
 example : getRows [[10, 11], [12], [13, 14, 15]] (.slice (some 2) (some 2)) = none := by decide
+
+/-! `exFlat`: two flat files (header 5 bytes, int16, 2 channels, 2 + 1 rows) at 1/400 Hz; `exCbin`: one
+compressed file of 3 rows (`Spec/C01b.lean`) -/
+
+example : SrcOK exFlat := by
+  refine ⟨by decide, by decide, by decide, ?_, by decide +kernel⟩
+  intro f hf
+  simp only [List.mem_cons, List.not_mem_nil, or_false] at hf
+  rcases hf with rfl | rfl <;> rfl
+example : (build exFlat).map (fun r => (r.nSamples, r.shape, r.duration, r.partBounds, r.chunkBounds)) =
+    some (some 3, some (3, 2), some 1200, [0, 2, 3], [0, 2, 3]) := by decide +kernel
+example : (build exFlat).map (fun r => getItemB r (.slice (some (-2)) none) (.idx [1, 0])) =
+    some (.ok [[4, 3], [6, 5]]) := by decide +kernel
+example : SrcOK exCbin := by
+  refine ⟨rfl, ?_⟩
+  intro md hmd
+  simp only [List.mem_cons, List.not_mem_nil, or_false] at hmd
+  subst hmd
+  exact ⟨rfl, by decide +kernel⟩
+example : (build exCbin).map (fun r => getItemB r (.list [0, 2]) .all) = some .refused := by decide +kernel
+example : (build exCbin).map (fun r => getItemB r (.int (-1)) .all) = some (.ok [[5, 6]]) := by decide +kernel
+example : selCols (.idx [-1, 0, 2]) [10, 11, 12] = [12, 10, 12] := by decide
+/-- two successive channel selections do not commute: `[:, [1, 0]]` then `[:, [0]]` keeps channel 1 -/
+example : (build exFlat).map (fun r => getItemOps r (.int 0) [.idx [1, 0], .idx [0]]) = some (.ok [[2]]) ∧
+    (build exFlat).map (fun r => getItemOps r (.int 0) [.idx [0], .idx [1, 0]]) = some (.ok [[1]]) := by
+  decide +kernel
+/-- the open known finding, as the model has it: of two compressed files only the first is kept -/
+example : (build (.cbin [(⟨1, "int16", 10, [0, 2]⟩, [[1], [2]]), (⟨1, "int16", 10, [0, 1]⟩, [[3]])])).map
+    (fun r => r.nSamples) = some (some 2) := by decide +kernel
 
 end PhyVerif.C01
